@@ -8,6 +8,7 @@ import math
 from fractions import Fraction
 
 REDUCTIONS = ("size", "count", "sum", "mean", "min", "max", "first", "last")
+NEUTRAL = "NEUTRAL"  # expected value: either 0 or null
 
 
 def selected_positions(n, mask=None):
@@ -93,8 +94,8 @@ def cumulative(op, keys, vals, mask=None, skip_na=True):
                 exp[i] = sum(nn) if nn else (0 if skip_na else None)
             defined[i] = True
             if skip_na and not nn:
-                # leading nulls: library convention (0 or null) is not fixed by the statement
-                defined[i] = False
+                # leading nulls: the sum of nothing - 0 or null, but nothing else
+                exp[i] = NEUTRAL
         elif op in ("cummin", "cummax"):
             if poisoned:
                 defined[i] = False  # statement defines non-skipping mode for cumsum only
